@@ -68,6 +68,11 @@ impl<'a> IrqBus for IrqTwin<'a> {
     }
 }
 
+/// regions the emulator executes code from with fetch = data read (C10)
+pub fn executable(pc: u16) -> bool {
+    pc < 0x8000 || (0xc000..0xe000).contains(&pc) || (0xff80..0xffff).contains(&pc)
+}
+
 pub fn ime_code(v: Ime) -> u8 {
     match v {
         Ime::Enabled => IME_ENABLED,
@@ -134,6 +139,10 @@ impl<M: Emu> RefMachine<M> {
             out_of_domain: None,
         };
         if self.run == Run::Run {
+            if !executable(self.cpu.pc) {
+                info.out_of_domain = Some("executing outside ROM / work RAM / high RAM");
+                return info;
+            }
             let op = self.t.read(self.cpu.pc);
             info.opcode = op;
             if sm83::is_undefined(op) {
@@ -209,6 +218,10 @@ impl<M: Emu> RefMachine<M> {
         let start = self.cpu.pc;
         let mut n = 0;
         loop {
+            if !executable(self.cpu.pc) {
+                info.out_of_domain = Some("executing outside ROM / work RAM / high RAM");
+                return info;
+            }
             let op = self.t.read(self.cpu.pc);
             info.opcode = op;
             if sm83::is_undefined(op) {
